@@ -582,6 +582,15 @@ class DoIPConnection:
         async with self._mutex:
             return await self.read_frame_unsafe()
 
+    def _requeue(self, frames: list[tuple[Any, Any]]) -> None:
+        # Skipped frames were received before everything that is still in the queue,
+        # hence they must be delivered first in order to preserve the message order.
+        later_frames: list[DoIPFrame] = []
+        while not self._read_queue.empty():
+            later_frames.append(self._read_queue.get_nowait())
+        for frame in [*frames, *later_frames]:
+            self._read_queue.put_nowait(frame)
+
     async def read_diag_request_raw(self) -> DoIPDiagFrame:
         unexpected_packets: list[tuple[Any, Any]] = []
         while True:
@@ -601,8 +610,7 @@ class DoIPConnection:
                 continue
 
             # Do not consume unexpected packets, but re-add them to the queue for other consumers
-            for item in unexpected_packets:
-                await self._read_queue.put(item)
+            self._requeue(unexpected_packets)
 
             return hdr, payload
 
@@ -641,8 +649,7 @@ class DoIPConnection:
                 continue
 
             # Do not consume unexpected packets, but re-add them to the queue for other consumers
-            for item in unexpected_packets:
-                await self._read_queue.put(item)
+            self._requeue(unexpected_packets)
 
             if isinstance(payload, DiagnosticMessageNegativeAcknowledgement):
                 raise DoIPNegativeAckError(payload.ACKCode)
@@ -660,8 +667,7 @@ class DoIPConnection:
                 continue
 
             # Do not consume unexpected packets, but re-add them to the queue for other consumers
-            for item in unexpected_packets:
-                await self._read_queue.put(item)
+            self._requeue(unexpected_packets)
 
             if payload.RoutingActivationResponseCode != RoutingActivationResponseCodes.Success:
                 raise DoIPRoutingActivationDeniedError(payload.RoutingActivationResponseCode)
